@@ -11,6 +11,7 @@ package main
 import (
 	"bytes"
 	"context"
+	"encoding/json"
 	"fmt"
 	"io"
 	"os"
@@ -27,6 +28,7 @@ import (
 	"github.com/tetratelabs/wazero/experimental"
 	"github.com/tetratelabs/wazero/experimental/sock"
 	"github.com/tetratelabs/wazero/imports/wasi_snapshot_preview1"
+	internalsock "github.com/tetratelabs/wazero/internal/sock"
 	wsys "github.com/tetratelabs/wazero/sys"
 	"github.com/tetratelabs/wazero/verif/fw"
 	"github.com/tetratelabs/wazero/verif/wb"
@@ -412,7 +414,7 @@ func (g *guestRT) observeBin(ctx context.Context, mc wazero.ModuleConfig, named 
 	o.Args = readList("args_sizes_get", "args_get")
 	o.Env = readList("environ_sizes_get", "environ_get")
 	o.Starts = call("g")
-	for fd := uint64(3); fd < 10; fd++ {
+	for fd := uint64(3); fd < 48; fd++ {
 		if call("fd_prestat_get", fd, 0) != 0 {
 			break
 		}
@@ -609,6 +611,13 @@ func (e *explorer) leaf(w *world, path []step) {
 		if len(path) >= 4 && i < len(w.nodes)-2 {
 			continue
 		}
+		e.observeNode(w, path, i, n)
+	}
+}
+
+// observeNode compares what a guest (or a runtime) built from node n observes with the functional reference.
+func (e *explorer) observeNode(w *world, path []step, i int, n *node) {
+	{
 		var got, want string
 		switch e.kind {
 		case "module":
@@ -740,7 +749,210 @@ func (e *explorer) exploreAll(hostA, hostB string) {
 	})
 }
 
+// ---------------------------------------------------------------- capacity combs and socket trees
+
+// combOps returns the generated "appending" operations of a kind: each adds one NEW element (a fresh
+// environment key, a fresh guest path) so that chains of them walk a backing slice through every
+// length/capacity relation; an implementation that appends to a shared backing array is only wrong when
+// the receiver has spare capacity, which the small alphabet of the tree exploration never reaches.
+func combOp(kind string, i int, tag string) op {
+	switch kind {
+	case "module":
+		k, v := fmt.Sprintf("%s%d", tag, i), fmt.Sprintf("v%s%d", tag, i)
+		name := "WithEnv(" + k + "," + v + ")"
+		return op{name, func(w *world, n *node) *node {
+			return &node{mc: n.mc.WithEnv(k, v), model: n.model.(mcModel).withEnv(k, v), born: name}
+		}}
+	case "fs":
+		g := fmt.Sprintf("/%s%d", tag, i)
+		name := "WithDirMount(A," + g + ")"
+		return op{name, func(w *world, n *node) *node {
+			return &node{fc: n.fc.WithDirMount(w.hostA, g), model: n.model.(*fsModel).with("dirA", g), born: name}
+		}}
+	}
+	return op{}
+}
+
+// exploreCombs: for every chain length K' <= K and both orders (siblings after the chain is complete /
+// sibling derived from a node before the chain is extended from it), derive two siblings from EVERY
+// chain node; the snapshot invariant is evaluated on every node after every derivation and every node is
+// observed through a guest at the end.
+func (e *explorer) exploreCombs(hostA, hostB string, K int) {
+	if e.kind != "module" && e.kind != "fs" {
+		return
+	}
+	for i := 0; i <= K; i++ {
+		e.ops = append(e.ops, combOp(e.kind, i, "K"), combOp(e.kind, i, "S"), combOp(e.kind, i, "T"))
+	}
+	type job struct {
+		k     int
+		order string
+	}
+	var jobs []job
+	for k := 0; k <= K; k++ {
+		jobs = append(jobs, job{k, "siblings-last"}, job{k, "sibling-first"})
+	}
+	cache := wazero.NewCompilationCache()
+	fw.Parallel(len(jobs), runtime.NumCPU(), func(ji int) {
+		j := jobs[ji]
+		g := newGuestRT()
+		defer g.rt.Close(context.Background())
+		w := newWorld(e.kind, g, hostA, hostB, cache)
+		w.nodes = []*node{w.root()}
+		var path []step
+		do := func(parent int, o op) {
+			s := step{parent, o.name}
+			e.apply(w, path, s)
+			path = append(path, s)
+		}
+		chain := []int{0} // node indices of the chain
+		switch j.order {
+		case "siblings-last":
+			for i := 0; i < j.k; i++ {
+				do(chain[len(chain)-1], combOp(e.kind, i, "K"))
+				chain = append(chain, len(w.nodes)-1)
+			}
+			for i, c := range chain {
+				do(c, combOp(e.kind, i, "S"))
+				do(c, combOp(e.kind, i, "T"))
+			}
+		case "sibling-first":
+			for i := 0; i < j.k; i++ {
+				c := chain[len(chain)-1]
+				do(c, combOp(e.kind, i, "S"))
+				do(c, combOp(e.kind, i, "K"))
+				chain = append(chain, len(w.nodes)-1)
+				do(c, combOp(e.kind, i, "T"))
+			}
+		}
+		e.samples.Add(map[string]any{"kind": e.kind, "comb": j.order, "chain": j.k, "derivations": len(path)})
+		for i, n := range w.nodes {
+			e.observeNode(w, path, i, n)
+		}
+		e.outcomes.Inc("comb:" + e.kind + ":" + j.order)
+	})
+}
+
+// sockTrees enumerates EVERY derivation tree of sock.Config with up to N WithTCPListener derivations
+// (derivation i picks any of the i existing configurations as its receiver: N! trees) and checks after
+// every derivation that each configuration still holds exactly its own address list.
+func sockTrees(run *fw.Run, N int, outcomes *fw.Counter) (states, trans int64) {
+	type snode struct {
+		cfg   sock.Config
+		model []string
+	}
+	// read goes the way the runtime does: through the context, to the internal address list.
+	read := func(c sock.Config) string {
+		ic, _ := sock.WithConfig(context.Background(), c).Value(internalsock.ConfigKey{}).(*internalsock.Config)
+		var o []string
+		if ic != nil {
+			for _, a := range ic.TCPAddresses {
+				o = append(o, fmt.Sprintf("%s:%d", a.Host, a.Port))
+			}
+		}
+		return fmt.Sprint(o)
+	}
+	snapOfModel := func(m []string) string { return fmt.Sprint(append([]string{}, m...)) }
+	var rec func(nodes []snode, parents []int)
+	rec = func(nodes []snode, parents []int) {
+		if len(parents) == N {
+			outcomes.Inc("socktree:complete")
+			return
+		}
+		for p := range nodes {
+			port := 1000 + len(parents)
+			nn := snode{nodes[p].cfg.WithTCPListener("h", port), append(append([]string{}, nodes[p].model...), fmt.Sprintf("h:%d", port))}
+			trans++
+			all := append(append([]snode{}, nodes...), nn)
+			for i, n := range all {
+				// reference: the same address list built as one fresh chain (chains are checked by the model below)
+				if got, want := read(n.cfg), snapOfModel(n.model); got != want {
+					rel := "earlier-derived"
+					if i == p {
+						rel = "receiver"
+					} else if i == len(all)-1 {
+						rel = "new"
+					}
+					run.Violation("sock:WithTCPListener-changes-"+rel+"-configuration",
+						fmt.Sprintf("sock.Config tree with receivers %v + derivation from node %d: node %d (%s) should list %s but lists %s", parents, p, i, rel, want, got),
+						map[string]any{"kind": "sock", "parents": append(append([]int{}, parents...), p)})
+					outcomes.Inc("socktree:mutated")
+					return // do not explore below a broken state
+				}
+			}
+			states++
+			rec(all, append(append([]int{}, parents...), p))
+		}
+	}
+	rec([]snode{{sock.NewConfig(), nil}}, nil)
+	return
+}
+
+// replay re-executes the derivation recorded in a replay file on a fresh world, with every check on, and
+// exits 1 if a violation shows again. Evidence and artefacts of the replay go to a temporary root.
+func replay(path string) {
+	b, err := os.ReadFile(path)
+	if err != nil {
+		fw.Fatalf("%v", err)
+	}
+	var doc struct {
+		Signature string `json:"signature"`
+		Replay    struct {
+			Kind    string `json:"kind"`
+			Path    []step `json:"path"`
+			Parents []int  `json:"parents"`
+		} `json:"replay"`
+	}
+	if err := json.Unmarshal(b, &doc); err != nil {
+		fw.Fatalf("%v", err)
+	}
+	tmp, _ := os.MkdirTemp("", "c19replay")
+	fw.Root = tmp
+	run := fw.Start("C19", "model_checking")
+	hostA, _ := os.MkdirTemp("", "c19a")
+	hostB, _ := os.MkdirTemp("", "c19b")
+	outcomes := fw.NewCounter()
+	fmt.Printf("replaying %s: kind=%s path=%v parents=%v\n", doc.Signature, doc.Replay.Kind, doc.Replay.Path, doc.Replay.Parents)
+	var trans int64
+	if doc.Replay.Kind == "sock" {
+		// the recorded receivers select one branch; the enumeration below visits it (and its siblings)
+		_, trans = sockTrees(run, len(doc.Replay.Parents), outcomes)
+	} else {
+		e := &explorer{run: run, kind: doc.Replay.Kind, observeLeaves: true, outcomes: outcomes, samples: fw.NewSampler(1)}
+		switch e.kind {
+		case "module":
+			e.ops = mcOps()
+		case "fs":
+			e.ops = fsOps()
+		case "runtime":
+			e.ops = rcOps()
+		}
+		for i := 0; i <= 17; i++ {
+			e.ops = append(e.ops, combOp(e.kind, i, "K"), combOp(e.kind, i, "S"), combOp(e.kind, i, "T"))
+		}
+		g := newGuestRT()
+		w := newWorld(e.kind, g, hostA, hostB, wazero.NewCompilationCache())
+		w.nodes = []*node{w.root()}
+		for i, s := range doc.Replay.Path {
+			ok := e.apply(w, doc.Replay.Path[:i], s)
+			fmt.Printf("  step %d: %s on node %d -> invariant %v\n", i+1, s.Op, s.Parent, ok)
+		}
+		for i, n := range w.nodes {
+			e.observeNode(w, doc.Replay.Path, i, n)
+		}
+		trans = e.trans.Load()
+	}
+	os.RemoveAll(hostA)
+	os.RemoveAll(hostB)
+	defer os.RemoveAll(tmp)
+	run.Finish(fw.Coverage{Evaluations: trans, DistinctNontriv: trans, Transitions: trans, Exhaustive: true, Rule: "replay of one recorded derivation", Outcomes: outcomes.Map()}, nil)
+}
+
 func main() {
+	if len(os.Args) > 2 && os.Args[1] == "replay" {
+		replay(os.Args[2])
+		return
+	}
 	run := fw.Start("C19", "model_checking")
 	// The live heap is tiny while the allocation rate is high: with the default GOGC the collector runs
 	// thousands of cycles per second and its stop-the-world phases leave most cores idle.
@@ -776,12 +988,26 @@ func main() {
 		}
 		t0 := time.Now()
 		e.exploreAll(hostA, hostB)
+		combK := 9
+		if run.Thorough() {
+			combK = 17
+		}
+		e.exploreCombs(hostA, hostB, combK)
 		states += e.states.Load()
 		trans += e.trans.Load()
 		obs += e.obs.Load()
 		bounds[kind] = map[string]any{"alphabet": len(e.ops), "depth": e.depth, "states": e.states.Load(), "transitions": e.trans.Load(), "wall_s": time.Since(t0).Seconds()}
 		outcomes.AddN("explored:"+kind, e.trans.Load())
 	}
+	sockN := 7
+	if run.Thorough() {
+		sockN = 9
+	}
+	ss, st := sockTrees(run, sockN, outcomes)
+	states += ss
+	trans += st
+	bounds["sock"] = map[string]any{"derivations": sockN, "states": ss, "transitions": st, "trees": "every choice of receiver per derivation (N! trees)"}
+	bounds["combs"] = "module and fs: chains of 0..9 (thorough 0..17) fresh-element derivations with two siblings from every chain node, in two orders"
 	om := outcomes.Map()
 	// compress observation outcomes into a count
 	distinctObs := int64(0)
